@@ -21,7 +21,7 @@ use zipora::memory::cache::CacheAlignedVec;
 use zipora::memory::{MmapVec, MmapVecConfig};
 
 const HEADER: &str = r#"From ZV.Common Require Import Base Run.
-From ZV.C10 Require Import Model.
+From ZV.C10 Require Import Model ModelValVec32 ModelArena ModelStrVec ModelFixedLen ModelFastVecCopy ModelCases.
 Open Scope N_scope.
 "#;
 
@@ -33,7 +33,13 @@ thread_local! {
     static DROPS: RefCell<Vec<u64>> = RefCell::new(vec![]);
     static LIVE: RefCell<Vec<i64>> = RefCell::new(vec![]);
     static WILD: RefCell<u64> = RefCell::new(0); // drops of ids never created (garbage read as an element)
+    static MUTE: RefCell<bool> = RefCell::new(false); // drops performed by the harness itself: counted, not logged
 }
+thread_local! { static RISKY_OFF: RefCell<bool> = RefCell::new(false); }
+/// operations that abort the process when the repaired checks are missing are left out once the probe has seen an abort
+fn risky_off() -> bool { RISKY_OFF.with(|r| *r.borrow()) }
+/// run `f` (a drop of something the harness owns) without writing to the drop log of the operation
+fn quiet<Rt>(f: impl FnOnce() -> Rt) -> Rt { MUTE.with(|m| *m.borrow_mut() = true); let r = f(); MUTE.with(|m| *m.borrow_mut() = false); r }
 struct El { id: u64 }
 const MAX_ID: u64 = 1 << 22; // ids are handed out consecutively per history; anything above is garbage read as an element
 fn el(id: u64) -> El {
@@ -48,7 +54,7 @@ impl Drop for El {
     fn drop(&mut self) {
         if self.id == PH { return; }
         if self.id >= MAX_ID { WILD.with(|w| *w.borrow_mut() += 1); return; }
-        DROPS.with(|d| d.borrow_mut().push(self.id));
+        if !MUTE.with(|m| *m.borrow()) { DROPS.with(|d| d.borrow_mut().push(self.id)); }
         LIVE.with(|l| { let mut l = l.borrow_mut(); let i = self.id as usize;
             if i < l.len() { l[i] -= 1; } else { WILD.with(|w| *w.borrow_mut() += 1); } });
     }
@@ -57,6 +63,7 @@ fn reset_counters() {
     DROPS.with(|d| d.borrow_mut().clear());
     LIVE.with(|l| l.borrow_mut().clear());
     WILD.with(|w| *w.borrow_mut() = 0);
+    MUTE.with(|m| *m.borrow_mut() = false);
 }
 fn take_drops() -> Vec<u64> { DROPS.with(|d| std::mem::take(&mut *d.borrow_mut())) }
 /// live instances per id must equal the occurrences in `held` (ids below `next_id`)
@@ -77,7 +84,16 @@ fn live_mismatch<'a>(held: impl Iterator<Item = &'a u64>, next_id: u64) -> Optio
     })
 }
 
-struct Ctx { sum: Summary, shards: CoqShards, budget: usize }
+#[derive(Clone, Copy, PartialEq)]
+enum Coq { Never, Budget, Always }
+struct Ctx { sum: Summary, shards: CoqShards, budgets: std::collections::BTreeMap<&'static str, (usize, usize)> }
+impl Ctx {
+    /// one more Coq case for `cell`, if its share of the Coq budget is not used up
+    fn room(&mut self, cell: &'static str) -> bool {
+        let e = self.budgets.entry(cell).or_insert((0, 0));
+        if e.0 < e.1 { e.0 += 1; true } else { false }
+    }
+}
 
 fn zlist(xs: &[i128]) -> String { coq_z_list(xs.iter().copied()) }
 fn nlist(xs: &[u64]) -> String { coq_n_list(xs.iter().map(|&x| x as u128)) }
@@ -92,7 +108,7 @@ fn parse_ops(v: &Value) -> Vec<Vec<u64>> {
 // ---------------------------------------------------------------------------------------------
 fn enc_opt(o: Option<u64>) -> Vec<i128> { match o { None => vec![1], Some(x) => vec![2, x as i128] } }
 
-fn ring_history(cx: &mut Ctx, cap0: u64, ops: &[Vec<u64>], force: bool) {
+fn ring_history(cx: &mut Ctx, cap0: u64, ops: &[Vec<u64>], coq: Coq) {
     let cell = "AutoGrowCircularQueue";
     cx.sum.eval(cell, &format!("ring {} {:?}", cap0, ops), ops.len() >= 3);
     let cj = json!({"cell": "ring", "cap": cap0, "ops": ops});
@@ -174,15 +190,15 @@ fn ring_history(cx: &mut Ctx, cap0: u64, ops: &[Vec<u64>], force: bool) {
         else if let Some(p) = live_mismatch([].iter(), next_id) { cx.sum.fail(cell, None, cj.clone(), &format!("after Drop of the queue: {}", p)); failed = true; }
     } else { std::mem::forget(q); }
     if wrapped_growth { cx.sum.dist("ring_growth_while_wrapped"); }
-    if !failed && (force || cx.shards.len() < cx.budget) {
-        cx.shards.push(format!("CRing {} [{}] [{}]", cap0, coq_ops.join("; "), expect.join("; ")), cj);
+    if !failed && (coq == Coq::Always || (coq == Coq::Budget && cx.room(cell))) {
+        cx.shards.push(format!("C0 (CRing {} [{}] [{}])", cap0, coq_ops.join("; "), expect.join("; ")), cj);
     }
 }
 
 // ---------------------------------------------------------------------------------------------
 // FixedCircularQueue<El, N>   ops: [0] push_back  [1] pop_front  [5] clear  [6] front  [7] back
 // ---------------------------------------------------------------------------------------------
-fn fixed_history_n<const N: usize>(cx: &mut Ctx, ops: &[Vec<u64>], force: bool) {
+fn fixed_history_n<const N: usize>(cx: &mut Ctx, ops: &[Vec<u64>], coq: Coq) {
     let cell = "FixedCircularQueue";
     cx.sum.eval(cell, &format!("fixed {} {:?}", N, ops), ops.len() >= 3);
     let cj = json!({"cell": "fixed", "cap": N, "ops": ops});
@@ -234,11 +250,11 @@ fn fixed_history_n<const N: usize>(cx: &mut Ctx, ops: &[Vec<u64>], force: bool) 
         if let Err(p) = r { cx.sum.fail(cell, None, cj.clone(), &format!("Drop panicked: {}", p)); failed = true; }
         else if let Some(p) = live_mismatch([].iter(), next_id) { cx.sum.fail(cell, None, cj.clone(), &format!("after Drop of the queue: {}", p)); failed = true; }
     } else { std::mem::forget(q); }
-    if !failed && (force || cx.shards.len() < cx.budget) {
-        cx.shards.push(format!("CFixed {} [{}] [{}]", N, coq_ops.join("; "), expect.join("; ")), cj);
+    if !failed && (coq == Coq::Always || (coq == Coq::Budget && cx.room(cell))) {
+        cx.shards.push(format!("C0 (CFixed {} [{}] [{}])", N, coq_ops.join("; "), expect.join("; ")), cj);
     }
 }
-fn fixed_history(cx: &mut Ctx, n: u64, ops: &[Vec<u64>], force: bool) {
+fn fixed_history(cx: &mut Ctx, n: u64, ops: &[Vec<u64>], force: Coq) {
     match n { 1 => fixed_history_n::<1>(cx, ops, force), 2 => fixed_history_n::<2>(cx, ops, force), 3 => fixed_history_n::<3>(cx, ops, force),
               4 => fixed_history_n::<4>(cx, ops, force), 7 => fixed_history_n::<7>(cx, ops, force), 8 => fixed_history_n::<8>(cx, ops, force),
               9 => fixed_history_n::<9>(cx, ops, force), _ => fixed_history_n::<16>(cx, ops, force) }
@@ -250,7 +266,7 @@ fn fixed_history(cx: &mut Ctx, n: u64, ops: &[Vec<u64>], force: bool) {
 //  [8,n] reserve  [9,i] get  [10] clone, drop original  [11,i] set  [12,n] truncate  [13,a,b] fill_range
 //  [14,k] pop_bulk  [15,k] copy_from (replace contents by k new values)  [16,k] push_n
 // ---------------------------------------------------------------------------------------------
-fn fastvec_history(cx: &mut Ctx, cap0: u64, ops: &[Vec<u64>], force: bool) {
+fn fastvec_history(cx: &mut Ctx, cap0: u64, ops: &[Vec<u64>], coq: Coq) {
     let cell = "FastVec<El>";
     cx.sum.eval(cell, &format!("fastvec {} {:?}", cap0, ops), ops.len() >= 3);
     let cj = json!({"cell": "fastvec", "cap": cap0, "ops": ops});
@@ -314,8 +330,8 @@ fn fastvec_history(cx: &mut Ctx, cap0: u64, ops: &[Vec<u64>], force: bool) {
         if let Err(p) = r { cx.sum.fail(cell, None, cj.clone(), &format!("Drop panicked: {}", p)); failed = true; }
         else if let Some(p) = live_mismatch([].iter(), next_id) { cx.sum.fail(cell, None, cj.clone(), &format!("after Drop of the vector: {}", p)); failed = true; }
     } else { std::mem::forget(v); }
-    if !failed && (force || cx.shards.len() < cx.budget) {
-        cx.shards.push(format!("CVec {} [{}] [{}]", cap0, coq_ops.join("; "), expect.join("; ")), cj);
+    if !failed && (coq == Coq::Always || (coq == Coq::Budget && cx.room(cell))) {
+        cx.shards.push(format!("C0 (CVec {} [{}] [{}])", cap0, coq_ops.join("; "), expect.join("; ")), cj);
     }
 }
 
@@ -348,8 +364,22 @@ trait VecApi<T: Elem>: Sized {
     fn pop_bulk(&mut self, _k: usize) -> R<T> { R::Unsup }
     fn copy_from(&mut self, _xs: Vec<T>) -> R<T> { R::Unsup }
     fn push_n(&mut self, _k: usize, _x: T) -> R<T> { R::Unsup }
+    fn ensure(&mut self, _n: usize) -> R<T> { R::Unsup }
     fn resize_with(&mut self, _n: usize, _mk: &mut dyn FnMut() -> T) -> R<T> { R::Unsup }
+    fn capacity(&self) -> usize { 0 }
+    /// M+S cells: the cell name under which Coq cases are budgeted, the head of the Coq case (constructor + initial
+    /// parameters) and the Coq term of one operation (`vals` = the values created for it, `cap_after` = capacity after
+    /// the operation); None = no mechanism model for this cell / operation
+    fn coq_cell() -> Option<&'static str> { None }
+    fn coq_head(_cap0: usize, _cap_init: usize) -> String { String::new() }
+    fn coq_op(_code: u64, _a: usize, _b: usize, _vals: &[u64], _cap_after: usize) -> Option<String> { None }
 }
+fn enc_r<T: Elem>(r: &R<T>) -> Vec<i128> {
+    match r { R::Unsup => vec![], R::Unit => vec![0], R::Refused => vec![-1], R::Val(None) => vec![1], R::Val(Some(x)) => vec![2, x.id() as i128],
+              R::List(l) => { let mut v = vec![3]; v.extend(l.iter().map(|x| x.id() as i128)); v } }
+}
+fn unit<T, E>(r: Result<(), E>) -> R<T> { match r { Ok(()) => R::Unit, Err(_) => R::Refused } }
+
 /// FastVec over the drop-counting element type, through the generic (oracle-only) history runner: the operations the
 /// Coq-traced FastVec<El> cell does not have (resize_with), with every element construction and destruction counted.
 struct FvEl(FastVec<El>);
@@ -370,7 +400,6 @@ impl VecApi<El> for FvEl {
     fn clone_self(&self) -> Option<Self> { Some(FvEl(self.0.clone())) }
     fn resize_with(&mut self, n: usize, mk: &mut dyn FnMut() -> El) -> R<El> { unit(self.0.resize_with(n, || mk())) }
 }
-fn unit<T, E>(r: Result<(), E>) -> R<T> { match r { Ok(()) => R::Unit, Err(_) => R::Refused } }
 
 impl<T: Elem + Clone + Copy + PartialEq> VecApi<T> for FastVec<T> {
     fn create(cap: usize) -> Self { if cap == 0 { FastVec::new() } else { FastVec::with_capacity(cap).unwrap() } }
@@ -388,6 +417,18 @@ impl<T: Elem + Clone + Copy + PartialEq> VecApi<T> for FastVec<T> {
     fn reserve(&mut self, n: usize) -> R<T> { unit(FastVec::reserve(self, n)) }
     fn clone_self(&self) -> Option<Self> { let c = self.clone(); if c != *self { return Some(FastVec::new()); } Some(c) }
     fn fill_range(&mut self, a: usize, b: usize, x: T) -> R<T> { unit(self.fill_range_fast(a, b, x)) }
+    fn copy_from(&mut self, xs: Vec<T>) -> R<T> { if risky_off() { R::Unsup } else { unit(self.copy_from_slice_fast(&xs)) } }
+    fn ensure(&mut self, n: usize) -> R<T> { if risky_off() { R::Unsup } else { unit(self.ensure_capacity(n)) } }
+    fn capacity(&self) -> usize { FastVec::capacity(self) }
+    fn coq_cell() -> Option<&'static str> { Some(if std::mem::size_of::<T>() == 1 { "FastVec<u8>" } else { "FastVec<u64>" }) }
+    fn coq_head(cap0: usize, _cap_init: usize) -> String { format!("CVecC {} {}", std::mem::size_of::<T>(), cap0) }
+    fn coq_op(code: u64, a: usize, b: usize, vals: &[u64], _cap_after: usize) -> Option<String> {
+        Some(match code { 0 => format!("TC (CPush {})", vals[0]), 1 => "TC CPop".into(), 2 => format!("TC (CInsert {} {})", a, vals[0]), 3 => format!("TC (CRemove {})", a),
+                          4 => format!("TC (CResize {} {})", a, vals[0]), 5 => "TC CClear".into(), 6 => "TC CShrink".into(),
+                          7 => format!("TC ({} {})", if vals.len() % 2 == 0 { "CExtend" } else { "CExtendFast" }, nlist(vals)),
+                          8 => format!("TC (CReserve {})", a), 9 => format!("TC (CGet {})", a), 10 => "TCClone".into(), 13 => format!("TC (CFill {} {} {})", a, b, vals[0]),
+                          15 => format!("TC (CCopyFrom {})", nlist(vals)), 17 => format!("TC (CEnsure {})", a), _ => return None })
+    }
 }
 impl<T: Elem + Clone> VecApi<T> for ValVec32<T> {
     fn create(cap: usize) -> Self { ValVec32::with_capacity(cap as u32).unwrap() }
@@ -397,10 +438,18 @@ impl<T: Elem + Clone> VecApi<T> for ValVec32<T> {
     fn push(&mut self, x: T) -> R<T> { unit(ValVec32::push(self, x)) }
     fn pop(&mut self) -> R<T> { R::Val(ValVec32::pop(self)) }
     fn clear(&mut self) -> R<T> { ValVec32::clear(self); R::Unit }
-    fn extend(&mut self, xs: Vec<T>) -> R<T> { unit(self.extend_from_slice(&xs)) }
+    fn extend(&mut self, xs: Vec<T>) -> R<T> { let r = unit(self.extend_from_slice(&xs)); quiet(move || drop(xs)); r }
     fn reserve(&mut self, n: usize) -> R<T> { unit(ValVec32::reserve(self, n as u32)) }
     fn clone_self(&self) -> Option<Self> { Some(self.clone()) }
     fn set(&mut self, i: usize, x: T) -> R<T> { unit(ValVec32::set(self, i as u32, x)) }
+    fn capacity(&self) -> usize { ValVec32::capacity(self) as usize }
+    fn coq_cell() -> Option<&'static str> { Some(if T::COUNTED { "ValVec32<El>" } else { "ValVec32<T: Copy>" }) }
+    fn coq_head(cap0: usize, cap_init: usize) -> String { format!("CVV {} {} {}", coq_bool(T::COUNTED), cap0, cap_init) }
+    fn coq_op(code: u64, a: usize, _b: usize, vals: &[u64], cap_after: usize) -> Option<String> {
+        Some(match code { 0 => format!("TW (WPush {})", vals[0]), 1 => "TW WPop".into(), 5 => "TW WClear".into(), 7 => format!("TW (WExtend {})", nlist(vals)),
+                          8 => format!("TW (WReserve {})", a), 9 => format!("TW (WGet {})", a), 10 => format!("TWClone {}", cap_after),
+                          11 => format!("TW (WSet {} {})", a, vals[0]), _ => return None })
+    }
 }
 struct VV64(ValVec32<u64>);
 impl VecApi<u64> for VV64 {
@@ -416,6 +465,14 @@ impl VecApi<u64> for VV64 {
     fn clone_self(&self) -> Option<Self> { Some(VV64(self.0.clone())) }
     fn set(&mut self, i: usize, x: u64) -> R<u64> { unit(self.0.set(i as u32, x)) }
     fn push_n(&mut self, k: usize, x: u64) -> R<u64> { unit(self.0.push_n_copy(k as u32, x)) }
+    fn capacity(&self) -> usize { self.0.capacity() as usize }
+    fn coq_cell() -> Option<&'static str> { Some("ValVec32<u64>") }
+    fn coq_head(cap0: usize, cap_init: usize) -> String { format!("CVV false {} {}", cap0, cap_init) }
+    fn coq_op(code: u64, a: usize, _b: usize, vals: &[u64], cap_after: usize) -> Option<String> {
+        Some(match code { 0 => format!("TW (WPushPanic {})", vals[0]), 1 => "TW WPop".into(), 5 => "TW WClear".into(), 7 => format!("TW (WExtendCopy {})", nlist(vals)),
+                          8 => format!("TW (WReserve {})", a), 9 => format!("TW (WGet {})", a), 10 => format!("TWClone {}", cap_after),
+                          11 => format!("TW (WSet {} {})", a, vals[0]), 16 => format!("TW (WPushN {} {})", a.min(200), vals[0]), _ => return None })
+    }
 }
 impl<T: Elem> VecApi<T> for CacheAlignedVec<T> {
     fn create(cap: usize) -> Self { if cap == 0 { CacheAlignedVec::new() } else { CacheAlignedVec::with_capacity(cap).unwrap() } }
@@ -483,61 +540,80 @@ impl VecApi<u64> for Mm {
         if r.is_some() { R::Unit } else { R::Refused } }
 }
 
-fn generic_history<T: Elem, V: VecApi<T>>(cx: &mut Ctx, cell: &str, tag: &str, cap0: u64, ops: &[Vec<u64>]) {
+fn generic_history<T: Elem, V: VecApi<T>>(cx: &mut Ctx, cell: &str, tag: &str, cap0: u64, ops: &[Vec<u64>], coq: Coq) {
     cx.sum.eval(cell, &format!("{} {} {:?}", tag, cap0, ops), ops.len() >= 3);
-    cx.sum.cell_status(cell, "S-only");
+    cx.sum.cell_status(cell, if V::coq_cell().is_some() { "M+S" } else { "S-only" });
     let cj = json!({"cell": tag, "cap": cap0, "ops": ops});
     reset_counters();
     let mut next_id: u64 = 0;
     let mut v = match guarded(|| V::create(cap0 as usize)) { Ok(v) => v, Err(p) => { cx.sum.fail(cell, None, cj, &format!("constructor panicked: {}", p)); return; } };
+    let cap_init = v.capacity();
     let mut shadow: Vec<u64> = vec![];
     let mut failed = false;
+    // the history as the mechanism model sees it (M+S cells only)
+    let mut coq_ok = V::coq_cell().is_some();
+    let mut coq_ops: Vec<String> = vec![];
+    let mut expect: Vec<String> = vec![];
     for o in ops {
         let code = op_arg(o, 0);
         let a = op_arg(o, 1).min(400) as usize;
         let b = op_arg(o, 2).min(400) as usize;
         let mut problem: Option<String> = None;
         let mut fresh = || { let id = next_id; next_id += 1; id };
+        let mut vals: Vec<u64> = vec![];        // values created for this operation
+        let mut ret: Vec<i128> = vec![];        // the return value in the encoding of Model.enc_ret ([] = not supported)
+        let mut drops_o: Option<Vec<u64>> = None; // destructors run by the operation itself
+        take_drops();
         let r = guarded(|| {
-            macro_rules! expect_unit { ($r:expr, $what:expr, $then:expr) => { match $r { R::Unsup => {}, R::Unit => { $then; }, _ => problem = Some(format!("{} refused", $what)) } } }
+            macro_rules! expect_unit { ($r:expr, $what:expr, $then:expr) => {{ let r = $r; drops_o = Some(take_drops()); ret = enc_r(&r);
+                match r { R::Unsup => {}, R::Unit => { $then; }, _ => problem = Some(format!("{} refused", $what)) } }} }
             match code {
-                0 => { let id = fresh(); let x = T::make(id); let idv = x.id();
+                0 => { let id = fresh(); let x = T::make(id); let idv = x.id(); vals.push(idv);
                        let full = v.fixed_capacity().map(|c| shadow.len() >= c).unwrap_or(false);
-                       match v.push(x) { R::Unsup => {}, R::Unit => { if full { problem = Some("push beyond the fixed capacity accepted".into()); } shadow.push(idv); }
-                                         _ => if !full { problem = Some("push refused".into()); } } }
-                1 => match v.pop() { R::Unsup => {}, R::Val(g) => { let g = g.map(|x| x.id()); let w = shadow.pop(); if g != w { problem = Some(format!("pop returned {:?}, a Vec returns {:?}", g, w)); } }, _ => problem = Some("pop refused".into()) },
-                2 => { let id = fresh(); let x = T::make(id); let idv = x.id();
-                       match v.insert(a, x) { R::Unsup => {}, R::Unit => { if a > shadow.len() { problem = Some(format!("insert at {} accepted with len {}", a, shadow.len())); } else { shadow.insert(a, idv); } }
-                                              _ => if a <= shadow.len() { problem = Some(format!("insert at {} refused with len {}", a, shadow.len())); } } }
-                3 => match v.remove(a) { R::Unsup => {}, R::Val(g) => { let g = g.map(|x| x.id()); let w = if a < shadow.len() { Some(shadow.remove(a)) } else { None }; if g != w { problem = Some(format!("remove({}) returned {:?}, a Vec returns {:?}", a, g, w)); } }
-                                         _ => if a < shadow.len() { problem = Some(format!("remove({}) refused with len {}", a, shadow.len())); } },
-                4 => { let id = fresh(); let x = T::make(id); let idv = x.id(); expect_unit!(v.resize(a, x), "resize", shadow.resize(a, idv)) }
+                       let r = v.push(x); drops_o = Some(take_drops()); ret = enc_r(&r);
+                       match r { R::Unsup => {}, R::Unit => { if full { problem = Some("push beyond the fixed capacity accepted".into()); } shadow.push(idv); }
+                                 _ => if !full { problem = Some("push refused".into()); } } }
+                1 => { let r = v.pop(); drops_o = Some(take_drops()); ret = enc_r(&r);
+                       match r { R::Unsup => {}, R::Val(g) => { let g = quiet(move || g.map(|x| x.id())); let w = shadow.pop(); if g != w { problem = Some(format!("pop returned {:?}, a Vec returns {:?}", g, w)); } }, _ => problem = Some("pop refused".into()) } }
+                2 => { let id = fresh(); let x = T::make(id); let idv = x.id(); vals.push(idv);
+                       let r = v.insert(a, x); drops_o = Some(take_drops()); ret = enc_r(&r);
+                       match r { R::Unsup => {}, R::Unit => { if a > shadow.len() { problem = Some(format!("insert at {} accepted with len {}", a, shadow.len())); } else { shadow.insert(a, idv); } }
+                                 _ => if a <= shadow.len() { problem = Some(format!("insert at {} refused with len {}", a, shadow.len())); } } }
+                3 => { let r = v.remove(a); drops_o = Some(take_drops()); ret = enc_r(&r);
+                       match r { R::Unsup => {}, R::Val(g) => { let g = quiet(move || g.map(|x| x.id())); let w = if a < shadow.len() { Some(shadow.remove(a)) } else { None }; if g != w { problem = Some(format!("remove({}) returned {:?}, a Vec returns {:?}", a, g, w)); } }
+                                 _ => if a < shadow.len() { problem = Some(format!("remove({}) refused with len {}", a, shadow.len())); } } }
+                4 => { let id = fresh(); let x = T::make(id); let idv = x.id(); vals.push(idv); expect_unit!(v.resize(a, x), "resize", shadow.resize(a, idv)) }
                 5 => expect_unit!(v.clear(), "clear", shadow.clear()),
                 6 => expect_unit!(v.shrink(), "shrink_to_fit", ()),
-                7 => { let k = a.min(200); let xs: Vec<T> = (0..k).map(|_| T::make(fresh())).collect(); let idv: Vec<u64> = xs.iter().map(|x| x.id()).collect();
+                7 => { let k = a.min(200); let xs: Vec<T> = (0..k).map(|_| T::make(fresh())).collect(); let idv: Vec<u64> = xs.iter().map(|x| x.id()).collect(); vals = idv.clone();
                        expect_unit!(v.extend(xs), "extend", shadow.extend(idv)) }
                 8 => expect_unit!(v.reserve(a), "reserve", ()),
-                9 => { let g = v.get(a); if g != shadow.get(a).copied() { problem = Some(format!("get({}) = {:?}, a Vec has {:?}", a, g, shadow.get(a))); } }
-                10 => { if let Some(c) = v.clone_self() { let old = std::mem::replace(&mut v, c); drop(old); } }
-                11 => { let id = fresh(); let x = T::make(id); let idv = x.id();
-                        match v.set(a, x) { R::Unsup => {}, R::Unit => { if a >= shadow.len() { problem = Some(format!("set({}) accepted with len {}", a, shadow.len())); } else { shadow[a] = idv; } }
-                                            _ => if a < shadow.len() { problem = Some(format!("set({}) refused with len {}", a, shadow.len())); } } }
+                9 => { let g = v.get(a); ret = enc_opt(g); if g != shadow.get(a).copied() { problem = Some(format!("get({}) = {:?}, a Vec has {:?}", a, g, shadow.get(a))); } }
+                10 => { if let Some(c) = v.clone_self() { let old = std::mem::replace(&mut v, c); drop(old); ret = vec![0]; } }
+                11 => { let id = fresh(); let x = T::make(id); let idv = x.id(); vals.push(idv);
+                        let r = v.set(a, x); drops_o = Some(take_drops()); ret = enc_r(&r);
+                        match r { R::Unsup => {}, R::Unit => { if a >= shadow.len() { problem = Some(format!("set({}) accepted with len {}", a, shadow.len())); } else { shadow[a] = idv; } }
+                                  _ => if a < shadow.len() { problem = Some(format!("set({}) refused with len {}", a, shadow.len())); } } }
                 12 => expect_unit!(v.truncate(a), "truncate", shadow.truncate(a)),
-                13 => { let id = fresh(); let x = T::make(id); let idv = x.id();
-                        match v.fill_range(a, b, x) { R::Unsup => {}, R::Unit => { if b > shadow.len() { problem = Some(format!("fill_range({}, {}) accepted with len {}", a, b, shadow.len())); } else if a < b { for s in &mut shadow[a..b] { *s = idv; } } }
-                                                      _ => if a <= b && b <= shadow.len() { problem = Some(format!("fill_range({}, {}) refused with len {}", a, b, shadow.len())); } } }
-                14 => match v.pop_bulk(a) { R::Unsup => {}, R::List(g) => { let g: Vec<u64> = g.iter().map(|x| x.id()).collect();
+                13 => { let id = fresh(); let x = T::make(id); let idv = x.id(); vals.push(idv);
+                        let r = v.fill_range(a, b, x); drops_o = Some(take_drops()); ret = enc_r(&r);
+                        match r { R::Unsup => {}, R::Unit => { if b > shadow.len() { problem = Some(format!("fill_range({}, {}) accepted with len {}", a, b, shadow.len())); } else if a < b { for s in &mut shadow[a..b] { *s = idv; } } }
+                                  _ => if a <= b && b <= shadow.len() { problem = Some(format!("fill_range({}, {}) refused with len {}", a, b, shadow.len())); } } }
+                14 => { let r = v.pop_bulk(a); drops_o = Some(take_drops()); ret = enc_r(&r);
+                        match r { R::Unsup => {}, R::List(g) => { let g: Vec<u64> = g.iter().map(|x| x.id()).collect();
                                                 if a > shadow.len() { problem = Some(format!("pop_bulk({}) accepted with len {}", a, shadow.len())); } else { let w = shadow.split_off(shadow.len() - a); if g != w { problem = Some(format!("pop_bulk({}) returned {:?}, the tail of a Vec is {:?}", a, g, w)); } } }
-                                            _ => if a <= shadow.len() { problem = Some(format!("pop_bulk({}) refused with len {}", a, shadow.len())); } },
-                15 => { let k = a.min(200); let xs: Vec<T> = (0..k).map(|_| T::make(fresh())).collect(); let idv: Vec<u64> = xs.iter().map(|x| x.id()).collect();
+                                  _ => if a <= shadow.len() { problem = Some(format!("pop_bulk({}) refused with len {}", a, shadow.len())); } } }
+                15 => { let k = a.min(200); let xs: Vec<T> = (0..k).map(|_| T::make(fresh())).collect(); let idv: Vec<u64> = xs.iter().map(|x| x.id()).collect(); vals = idv.clone();
                         expect_unit!(v.copy_from(xs), "copy_from", shadow = idv) }
-                17 => { let mut made: Vec<u64> = vec![];
+                17 => expect_unit!(v.ensure(a), "ensure_capacity", ()),
+                18 => { let mut made: Vec<u64> = vec![];
                         let r = v.resize_with(a, &mut || { let x = T::make(fresh()); made.push(x.id()); x });
                         expect_unit!(r, "resize_with", { if a <= shadow.len() { shadow.truncate(a); } else { shadow.extend(made.iter().copied()); } }) }
-                _ => { let k = a.min(200); let id = fresh(); let x = T::make(id); let idv = x.id();
+                _ => { let k = a.min(200); let id = fresh(); let x = T::make(id); let idv = x.id(); vals.push(idv);
                        expect_unit!(v.push_n(k, x), "push_n", shadow.extend(std::iter::repeat(idv).take(k))) }
             }
         });
+        let late = take_drops(); let mut drops = drops_o.unwrap_or(late); drops.sort();
         if let Err(p) = r { cx.sum.fail(cell, None, cj.clone(), &format!("op {:?} panicked: {}", o, p)); failed = true; break; }
         if problem.is_none() { match guarded(|| (v.len(), v.ids(), v.get(shadow.len()), v.get(shadow.len() + 9))) {
             Err(p) => problem = Some(format!("reading back panicked: {}", p)),
@@ -545,26 +621,113 @@ fn generic_history<T: Elem, V: VecApi<T>>(cx: &mut Ctx, cell: &str, tag: &str, c
                                            else if past.is_some() || past9.is_some() { problem = Some("an index past the end was not refused".into()); } } } }
         if problem.is_none() && T::COUNTED { problem = live_mismatch(shadow.iter(), next_id); }
         if let Some(p) = problem { cx.sum.fail(cell, None, cj.clone(), &format!("after op {:?}: {}", o, p)); failed = true; break; }
+        if coq_ok {
+            let cap_now = v.capacity();
+            match (ret.is_empty(), V::coq_op(code.min(17), a, b, &vals, cap_now)) {
+                (false, Some(t)) => { coq_ops.push(t);
+                    let mut e = ret; e.push(-7); if T::COUNTED { e.extend(drops.iter().map(|&x| x as i128)); }
+                    e.extend([-8, v.len() as i128, cap_now as i128]); expect.push(zlist(&e)); }
+                _ => coq_ok = false,   // an operation outside the model: this history is not replayed in Coq
+            }
+        }
     }
     if failed { std::mem::forget(v); return; }
     let r = guarded(move || drop(v));
-    if let Err(p) = r { cx.sum.fail(cell, None, cj, &format!("Drop panicked: {}", p)); }
-    else if T::COUNTED { if let Some(p) = live_mismatch([].iter(), next_id) { cx.sum.fail(cell, None, cj, &format!("after Drop of the vector: {}", p)); } }
+    if let Err(p) = r { cx.sum.fail(cell, None, cj, &format!("Drop panicked: {}", p)); return; }
+    else if T::COUNTED { if let Some(p) = live_mismatch([].iter(), next_id) { cx.sum.fail(cell, None, cj, &format!("after Drop of the vector: {}", p)); return; } }
+    if let (true, Some(bc)) = (coq_ok, V::coq_cell()) {
+        if coq == Coq::Always || (coq == Coq::Budget && cx.room(bc)) {
+            cx.shards.push(format!("{} [{}] [{}]", V::coq_head(cap0 as usize, cap_init), coq_ops.join("; "), expect.join("; ")), cj);
+        }
+    }
 }
 
-fn vec_cell(cx: &mut Ctx, tag: &str, cap0: u64, ops: &[Vec<u64>]) {
+fn vec_cell(cx: &mut Ctx, tag: &str, cap0: u64, ops: &[Vec<u64>], coq: Coq) {
     match tag {
-        "fastvec_u64" => generic_history::<u64, FastVec<u64>>(cx, "FastVec<u64>", tag, cap0, ops),
-        "fastvec_u8" => generic_history::<u8, FastVec<u8>>(cx, "FastVec<u8>", tag, cap0, ops),
-        "fastvec_el" => generic_history::<El, FvEl>(cx, "FastVec<El>/resize_with", tag, cap0, ops),
-        "valvec32_el" => generic_history::<El, ValVec32<El>>(cx, "ValVec32<El>", tag, cap0, ops),
-        "valvec32_u64" => generic_history::<u64, VV64>(cx, "ValVec32<u64>", tag, cap0, ops),
-        "cachevec_el" => generic_history::<El, CacheAlignedVec<El>>(cx, "CacheAlignedVec<El>", tag, cap0, ops),
-        "cachevec_u8" => generic_history::<u8, CacheAlignedVec<u8>>(cx, "CacheAlignedVec<u8>", tag, cap0, ops),
-        "layoutvec_u64" => generic_history::<u64, Layout64>(cx, "cache_layout::CacheAlignedVec<u64>", tag, cap0, ops),
-        "bumpvec_el" => generic_history::<El, Bump>(cx, "BumpVec<El>", tag, cap0, ops),
-        "mmapvec_u64" => generic_history::<u64, Mm>(cx, "MmapVec<u64>", tag, cap0, ops),
+        "fastvec_u64" => generic_history::<u64, FastVec<u64>>(cx, "FastVec<u64>", tag, cap0, ops, coq),
+        "fastvec_u8" => generic_history::<u8, FastVec<u8>>(cx, "FastVec<u8>", tag, cap0, ops, coq),
+        "fastvec_el" => generic_history::<El, FvEl>(cx, "FastVec<El>/resize_with", tag, cap0, ops, coq),
+        "valvec32_el" => generic_history::<El, ValVec32<El>>(cx, "ValVec32<El>", tag, cap0, ops, coq),
+        "valvec32_u64" => generic_history::<u64, VV64>(cx, "ValVec32<u64>", tag, cap0, ops, coq),
+        "cachevec_el" => generic_history::<El, CacheAlignedVec<El>>(cx, "CacheAlignedVec<El>", tag, cap0, ops, coq),
+        "cachevec_u8" => generic_history::<u8, CacheAlignedVec<u8>>(cx, "CacheAlignedVec<u8>", tag, cap0, ops, coq),
+        "layoutvec_u64" => generic_history::<u64, Layout64>(cx, "cache_layout::CacheAlignedVec<u64>", tag, cap0, ops, coq),
+        "bumpvec_el" => generic_history::<El, Bump>(cx, "BumpVec<El>", tag, cap0, ops, coq),
+        "mmapvec_u64" => generic_history::<u64, Mm>(cx, "MmapVec<u64>", tag, cap0, ops, coq),
         _ => {}
+    }
+}
+
+/// ValVec32 at the u32 limits, on zero-sized elements (no memory needed): a slice longer than u32::MAX must be refused
+/// (the pinned tree truncated its length with `as u32`: heap overflow for sized elements, wrong len for ZSTs), and at
+/// len == u32::MAX push / reserve / extend must report an error while pop still works.
+fn valvec32_limits(cx: &mut Ctx) {
+    let cell = "ValVec32<()> at u32::MAX";
+    cx.sum.eval(cell, "valvec32_limits", true);
+    cx.sum.cell_status(cell, "S-only");
+    let cj = json!({"cell": "valvec32_limits"});
+    let r = guarded(|| -> Option<String> {
+        let n: usize = (1usize << 32) + 3;
+        // a slice of zero-sized elements occupies no memory, whatever its length
+        let big: &[()] = unsafe { std::slice::from_raw_parts(std::ptr::NonNull::<()>::dangling().as_ptr(), n) };
+        let mut v: ValVec32<()> = ValVec32::new();
+        if v.extend_from_slice_copy(big).is_ok() { return Some(format!("extend_from_slice_copy of a slice of {} elements returned Ok, len() = {} (a Vec holds {})", n, v.len(), n)); }
+        if v.len() != 0 { return Some(format!("a refused extend_from_slice_copy changed len() to {}", v.len())); }
+        if v.extend_from_slice(big).is_ok() { return Some(format!("extend_from_slice of a slice of {} elements returned Ok, len() = {}", n, v.len())); }
+        if v.len() != 0 { return Some(format!("a refused extend_from_slice changed len() to {}", v.len())); }
+        let exact: &[()] = &big[..u32::MAX as usize];
+        if v.push(()).is_err() || v.len() != 1 { return Some("push of a zero-sized element refused".into()); }
+        if v.extend_from_slice_copy(exact).is_ok() { return Some(format!("1 + u32::MAX elements accepted, len() = {}", v.len())); }
+        if v.pop() != Some(()) { return Some("pop() lost the element".into()); }
+        if v.extend_from_slice_copy(exact).is_err() || v.len() != u32::MAX { return Some(format!("extend by exactly u32::MAX elements: len() = {}", v.len())); }
+        if v.push(()).is_ok() { return Some(format!("push at len == u32::MAX accepted, len() = {}", v.len())); }
+        if v.reserve(1).is_ok() { return Some("reserve(1) at len == u32::MAX accepted".into()); }
+        if v.reserve(0).is_err() { return Some("reserve(0) at len == u32::MAX refused".into()); }
+        if v.extend_from_slice_copy(&[()]).is_ok() || v.push_n_copy(1, ()).is_ok() { return Some("extend / push_n_copy at len == u32::MAX accepted".into()); }
+        if v.len() != u32::MAX || v.get(u32::MAX - 1).is_none() || v.get(u32::MAX).is_some() { return Some("len()/get() at len == u32::MAX disagree with a Vec".into()); }
+        if v.pop() != Some(()) || v.len() != u32::MAX - 1 { return Some("pop at len == u32::MAX".into()); }
+        if v.push(()).is_err() || v.len() != u32::MAX { return Some("push at len == u32::MAX - 1 refused".into()); }
+        v.clear(); if !v.is_empty() { return Some("clear()".into()); }
+        for _ in 0..3 { if v.push(()).is_err() { return Some("push of a zero-sized element refused".into()); } }
+        let c = v.clone(); if c.len() != 3 { return Some(format!("clone() of 3 zero-sized elements holds {}", c.len())); }
+        v.clear();
+        if v.push_n_copy(u32::MAX, ()).is_err() || v.len() != u32::MAX || v.push_n_copy(1, ()).is_ok() { return Some("push_n_copy to u32::MAX".into()); }
+        None
+    });
+    match r { Err(p) => cx.sum.fail(cell, None, cj, &format!("panicked: {}", p)), Ok(Some(d)) => cx.sum.fail(cell, None, cj, &d), Ok(None) => {} }
+}
+
+/// FastVec operations that abort the *process* on the pinned tree (zipora_verify! -> std::process::abort): each is run
+/// in a child process, so that an abort is a reported failure with a replay instead of the end of the harness.
+/// mode 0: ensure_capacity below len; 1: copy_from_slice_fast with a source shorter than the vector; 2: with an empty source
+fn fastvec_probe_child(mode: u64) {
+    let mut v: FastVec<u64> = FastVec::new();
+    v.push(1).unwrap(); v.push(2).unwrap();
+    let ok = match mode {
+        0 => v.ensure_capacity(1).is_ok() && v.as_slice() == [1, 2] && v.ensure_capacity(0).is_ok() && v.ensure_capacity(2).is_ok() && v.as_slice() == [1, 2],
+        1 => v.copy_from_slice_fast(&[9]).is_ok() && v.as_slice() == [9],
+        _ => v.copy_from_slice_fast(&[]).is_ok() && v.as_slice().is_empty(),
+    };
+    std::process::exit(if ok { 0 } else { 3 });
+}
+fn fastvec_probe(cx: &mut Ctx, args: &Args, mode: u64) {
+    let cell = "FastVec<u64>";
+    cx.sum.eval(cell, &format!("fastvec_probe {}", mode), true);
+    let cj = json!({"cell": "fastvec_probe", "mode": mode});
+    let dir = format!("{}/probe_{}", args.out, mode);
+    std::fs::create_dir_all(&dir).ok();
+    let f = format!("{}/spec.json", dir);
+    std::fs::write(&f, json!({"case": {"cell": "fastvec_probe_child", "mode": mode}}).to_string()).ok();
+    let st = std::process::Command::new(std::env::current_exe().expect("current_exe"))
+        .args(["C10", "--seed", "0", "--tier", "quick", "--out", &dir, "--replay", &f])
+        .stdout(std::process::Stdio::null()).stderr(std::process::Stdio::null()).status();
+    std::fs::remove_dir_all(&dir).ok();
+    let what = ["ensure_capacity(1) on a vector of 2 elements", "copy_from_slice_fast(&[9]) on [1, 2]", "copy_from_slice_fast(&[]) on [1, 2]"][(mode as usize).min(2)];
+    match st {
+        Ok(s) if s.success() => {}
+        Ok(s) if s.code() == Some(3) => cx.sum.fail(cell, None, cj, &format!("{}: the result is not what a Vec holds after the same operation", what)),
+        Ok(s) => { RISKY_OFF.with(|r| *r.borrow_mut() = true); cx.sum.fail(cell, None, cj, &format!("{}: the process was terminated ({}) where a value or an error is demanded", what, s)); }
+        Err(e) => cx.sum.notes.push(format!("fastvec_probe: cannot start the child process: {}", e)),
     }
 }
 
@@ -588,7 +751,7 @@ fn str_case(cx: &mut Ctx, kind: u64, strs: &[String], mode: u64) {
         "AdvancedStringVec/level0", "AdvancedStringVec/level1", "AdvancedStringVec/level2", "AdvancedStringVec/level3"];
     let cell = names[(kind as usize).min(12)];
     cx.sum.eval(cell, &format!("{} {} {:?}", cell, mode, strs), strs.len() >= 2);
-    cx.sum.cell_status(cell, "S-only");
+    cx.sum.cell_status(cell, if kind <= 3 { "M+S" } else { "S-only" });
     let cj = json!({"cell": "str", "kind": kind, "mode": mode, "strs": strs});
     let r: Result<Option<(Option<&'static str>, String)>, String> = guarded(|| -> Option<(Option<&'static str>, String)> {
         match kind {
@@ -723,6 +886,195 @@ fn str_case(cx: &mut Ctx, kind: u64, strs: &[String], mode: u64) {
 }
 
 // ---------------------------------------------------------------------------------------------
+// string-vector histories (M+S): SortableStrVec and FixedLenStrVec<N>
+//   an operation is [code, arg]: the argument is a string, an index, or [byte, count] for a run of one byte
+// ---------------------------------------------------------------------------------------------
+fn enc_str(e: &mut Vec<i128>, s: &[u8]) { e.push(s.len() as i128); e.extend(s.iter().map(|&b| b as i128)); }
+fn sop_str(o: &Value) -> String {
+    match &o[1] { Value::String(s) => s.clone(),
+                  Value::Array(a) => { let b = a.get(0).and_then(|x| x.as_u64()).unwrap_or(120).min(127) as u8; let n = a.get(1).and_then(|x| x.as_u64()).unwrap_or(0).min(1 << 21) as usize;
+                                       String::from_utf8(vec![b; n]).unwrap_or_default() }
+                  _ => String::new() }
+}
+fn sop_coq_str(o: &Value) -> String {
+    match &o[1] { Value::Array(a) => format!("(repeat {} (N.to_nat {}))", a.get(0).and_then(|x| x.as_u64()).unwrap_or(120).min(127), a.get(1).and_then(|x| x.as_u64()).unwrap_or(0).min(1 << 21)),
+                  _ => coq_bytes(sop_str(o).as_bytes()) }
+}
+
+/// SortableStrVec: [0,s] push_str  [1,i] get  [2] len  [3] iter  [4] clear  [5] sort_lexicographic  [6] sort_by_length
+/// [7] sort_by(reverse)  [8,i] get_sorted  [9] iter_sorted  [10] clone  [11] radix_sort  [12] sort  [13,s] push(String)
+fn strvec_history(cx: &mut Ctx, ops: &[Value], coq: Coq) {
+    let cell = "SortableStrVec";
+    cx.sum.eval(cell, &format!("strvec {:?}", ops), ops.len() >= 3);
+    let cj = json!({"cell": "strvec", "ops": ops});
+    #[derive(PartialEq, Clone, Copy)] enum Mode { Unsorted, Exact, ByLen }
+    let r = guarded(|| -> Result<(Vec<String>, Vec<String>, bool), String> {
+        let mut v = SortableStrVec::new();
+        let mut want: Vec<String> = vec![];
+        let mut view: Vec<String> = vec![];   // what the sorted view must show (Exact), or a sorted-by-length reference (ByLen)
+        let mut mode = Mode::Unsorted;
+        let mut coq_ops: Vec<String> = vec![]; let mut expect: Vec<String> = vec![]; let coq_ok = true;
+        for o in ops {
+            let code = o[0].as_u64().unwrap_or(0);
+            let i = o[1].as_u64().unwrap_or(0) as usize;
+            let mut e: Vec<i128> = vec![];
+            let mut cop: Option<String> = None;
+            match code {
+                0 | 13 => { let st = sop_str(o);
+                    let r = if code == 0 { v.push_str(&st) } else { v.push(st.clone()) };
+                    cop = Some(format!("TS (SPush {})", sop_coq_str(o)));
+                    match r { Ok(id) => { if id != want.len() { return Err(format!("push returned id {} for element {}", id, want.len())); }
+                                          e = vec![5, id as i128]; want.push(st); mode = Mode::Unsorted; }
+                              Err(_) => { if st.len() < (1 << 20) { return Err(format!("push of a {}-byte string refused", st.len())); } e = vec![-1]; } } }
+                1 => { let g = v.get(i).map(|x| x.to_string()); if g != want.get(i).cloned() { return Err(format!("get({}) = {:?}, a Vec<String> holds {:?}", i, g.as_deref().map(trunc), want.get(i).map(|x| trunc(x)))); }
+                       if v.get_by_id(i).map(|x| x.to_string()) != g { return Err(format!("get_by_id({}) differs from get", i)); }
+                       match &g { None => e = vec![1], Some(x) => { e = vec![2]; enc_str(&mut e, x.as_bytes()); } }
+                       if g.as_ref().map(|x| x.len()).unwrap_or(0) <= 4096 { cop = Some(format!("TS (SGet {})", i)); } else { e.clear(); } }
+                2 => { if v.len() != want.len() || v.is_empty() != want.is_empty() { return Err(format!("len() = {}, a Vec<String> holds {}", v.len(), want.len())); } e = vec![4, v.len() as i128]; cop = Some("TS SLen".into()); }
+                3 => { let g: Vec<String> = v.iter().map(|x| x.to_string()).collect(); if g != want { return Err(format!("iter() yields {} strings {:?}.., a Vec<String> holds {}", g.len(), g.iter().take(4).map(|x| trunc(x)).collect::<Vec<_>>(), want.len())); }
+                       if g.iter().map(|x| x.len()).sum::<usize>() <= 8192 { e = vec![3, g.len() as i128]; for x in &g { enc_str(&mut e, x.as_bytes()); } cop = Some("TS SIter".into()); } }
+                4 => { v.clear(); want.clear(); mode = Mode::Unsorted; e = vec![0]; cop = Some("TS SClear".into()); }
+                5 | 11 | 12 => { let r = match code { 5 => v.sort_lexicographic(), 11 => v.radix_sort(), _ => v.sort() };
+                       if r.is_err() { return Err("sort refused".into()); }
+                       view = want.clone(); view.sort(); mode = Mode::Exact; e = vec![0];
+                       cop = Some(if code == 11 { "TS SRadix" } else { "TS SSortLex" }.into()); }
+                6 => { if v.sort_by_length().is_err() { return Err("sort_by_length refused".into()); } view = want.clone(); view.sort(); mode = Mode::ByLen; e = vec![0]; cop = Some("TS SSortByLen".into()); }
+                7 => { if v.sort_by(|a, b| b.cmp(a)).is_err() { return Err("sort_by refused".into()); } view = want.clone(); view.sort(); view.reverse(); mode = Mode::Exact; e = vec![0]; cop = Some("TS (SSortBy rev_lex)".into()); }
+                8 => { let g = v.get_sorted(i).map(|x| x.to_string());
+                       match mode { Mode::Exact => if g != view.get(i).cloned() { return Err(format!("get_sorted({}) = {:?}, the sorted sequence has {:?}", i, g.as_deref().map(trunc), view.get(i).map(|x| trunc(x)))); },
+                                    Mode::ByLen => { let mut lens: Vec<usize> = want.iter().map(|x| x.len()).collect(); lens.sort();
+                                                     if g.as_ref().map(|x| x.len()) != lens.get(i).copied() || g.as_ref().map(|x| !want.contains(x)).unwrap_or(false) { return Err(format!("get_sorted({}) after sort_by_length = {:?}", i, g.as_deref().map(trunc))); } }
+                                    Mode::Unsorted => {} }
+                       if mode != Mode::ByLen && g.as_ref().map(|x| x.len()).unwrap_or(0) <= 4096 {
+                           match &g { None => e = vec![1], Some(x) => { e = vec![2]; enc_str(&mut e, x.as_bytes()); } } cop = Some(format!("TS (SGetSorted {})", i)); } }
+                9 => { let g: Vec<String> = v.iter_sorted().map(|x| x.to_string()).collect();
+                       match mode { Mode::Exact => if g != view { return Err(format!("iter_sorted() yields {:?}.., the sorted sequence is {:?}..", g.iter().take(4).map(|x| trunc(x)).collect::<Vec<_>>(), view.iter().take(4).map(|x| trunc(x)).collect::<Vec<_>>())); },
+                                    Mode::ByLen => { if g.len() != want.len() || g.windows(2).any(|w| w[0].len() > w[1].len()) { return Err("iter_sorted() after sort_by_length is not ordered by length".into()); }
+                                                     let mut a = g.clone(); a.sort(); if a != view { return Err("iter_sorted() after sort_by_length is not a permutation of the pushed strings".into()); } }
+                                    Mode::Unsorted => {} }
+                       if g.iter().map(|x| x.len()).sum::<usize>() <= 8192 {
+                           if mode == Mode::ByLen { let mut a = g.clone(); a.sort(); e = vec![3, 2 * g.len() as i128]; for x in &g { e.push(1); e.push(x.len() as i128); } for x in &a { enc_str(&mut e, x.as_bytes()); } cop = Some("TSViewCanon".into()); }
+                           else { e = vec![3, g.len() as i128]; for x in &g { enc_str(&mut e, x.as_bytes()); } cop = Some("TS SIterSorted".into()); } } }
+                _ => { let c = v.clone(); drop(v); v = c; e = vec![0]; cop = Some("TSClone".into()); }
+            }
+            // what the property demands after every operation: the pushed sequence, in insertion order
+            if v.len() != want.len() { return Err(format!("after op {:?}: len() = {}, a Vec<String> holds {}", o[0], v.len(), want.len())); }
+            let n = want.len();
+            for j in [0usize, n / 2, n.wrapping_sub(1)] { if j < n && v.get(j) != Some(want[j].as_str()) { return Err(format!("after op {:?}: get({}) = {:?}, pushed {:?}", o[0], j, v.get(j).map(trunc), trunc(&want[j]))); } }
+            if v.get(n).is_some() || v.get(n + 7).is_some() { return Err("get past the end was not refused".into()); }
+            if mode != Mode::Unsorted && v.get_sorted(n).is_some() { return Err("get_sorted past the end was not refused".into()); }
+            if let (Some(t), false) = (cop, e.is_empty()) { coq_ops.push(t); expect.push(zlist(&e)); }
+        }
+        Ok((coq_ops, expect, coq_ok))
+    });
+    match r {
+        Err(p) => cx.sum.fail(cell, None, cj, &format!("panicked: {}", p)),
+        Ok(Err(d)) => cx.sum.fail(cell, None, cj, &d),
+        Ok(Ok((coq_ops, expect, coq_ok))) => if coq_ok && (coq == Coq::Always || (coq == Coq::Budget && cx.room(cell))) {
+            cx.shards.push(format!("CStr [{}] [{}]", coq_ops.join("; "), expect.join("; ")), cj); }
+    }
+}
+
+/// FixedLenStrVec<N>: [0,s] push  [1,i] get  [2,i] get_bytes  [3] len  [4,s] find_exact  [5,s] count_prefix
+fn fixedlen_history_n<const N: usize>(cx: &mut Ctx, ops: &[Value], coq: Coq) {
+    let cell: &'static str = match N { 4 => "FixedLenStrVec<4>", 8 => "FixedLenStrVec<8>", 16 => "FixedLenStrVec<16>", _ => "FixedLenStrVec<300>" };
+    cx.sum.eval(cell, &format!("fixedlen {} {:?}", N, ops), ops.len() >= 3);
+    cx.sum.cell_status(cell, "M+S");
+    let cj = json!({"cell": "fixedlen", "cap": N, "ops": ops});
+    let r = guarded(|| -> Result<(Vec<String>, Vec<String>), String> {
+        let mut v: FixedLenStrVec<N> = if ops.len() % 2 == 0 { FixedLenStrVec::new() } else { FixedLenStrVec::with_capacity(ops.len()) };
+        let mut want: Vec<String> = vec![];
+        let mut coq_ops: Vec<String> = vec![]; let mut expect: Vec<String> = vec![];
+        for o in ops {
+            let code = o[0].as_u64().unwrap_or(0);
+            let i = o[1].as_u64().unwrap_or(0) as usize;
+            let mut e: Vec<i128> = vec![];
+            match code {
+                0 => { let st = sop_str(o);
+                       match v.push(&st) { Ok(()) => { if st.len() > N { return Err(format!("a {}-byte string was accepted by FixedLenStrVec<{}>", st.len(), N)); } want.push(st); e = vec![0]; }
+                                           Err(_) => { if st.len() <= N && st.len() <= 255 { return Err(format!("push of a {}-byte string refused by FixedLenStrVec<{}>", st.len(), N)); } e = vec![-1]; } }
+                       coq_ops.push(format!("FPush {}", sop_coq_str(o))); }
+                1 => { let g = v.get(i).map(|x| x.to_string()); if g != want.get(i).cloned() { return Err(format!("get({}) = {:?}, a Vec<String> holds {:?}", i, g, want.get(i))); }
+                       match &g { None => e = vec![1], Some(x) => { e = vec![2]; enc_str(&mut e, x.as_bytes()); } } coq_ops.push(format!("FGet {}", i)); }
+                2 => { let g = v.get_bytes(i).map(|x| x.to_vec()); if g.as_deref() != want.get(i).map(|x| x.as_bytes()) { return Err(format!("get_bytes({}) = {:?}, a Vec<String> holds {:?}", i, g, want.get(i))); }
+                       match &g { None => e = vec![1], Some(x) => { e = vec![2]; enc_str(&mut e, x); } } coq_ops.push(format!("FGetBytes {}", i)); }
+                3 => { if v.len() != want.len() || v.is_empty() != want.is_empty() { return Err(format!("len() = {}, a Vec<String> holds {}", v.len(), want.len())); } e = vec![4, v.len() as i128]; coq_ops.push("FLen".into()); }
+                4 => { let st = sop_str(o); let g = v.find_exact(&st); let w = want.iter().position(|x| *x == st);
+                       if g != w { return Err(format!("find_exact({:?}) = {:?}, the first occurrence is {:?}", st, g, w)); }
+                       e = match g { None => vec![6], Some(k) => vec![7, k as i128] }; coq_ops.push(format!("FFind {}", sop_coq_str(o))); }
+                _ => { let st = sop_str(o); let g = v.count_prefix(&st); let w = want.iter().filter(|x| x.starts_with(st.as_str())).count();
+                       if g != w { return Err(format!("count_prefix({:?}) = {}, {} of the pushed strings start with it", st, g, w)); }
+                       e = vec![4, g as i128]; coq_ops.push(format!("FCount {}", sop_coq_str(o))); }
+            }
+            let n = want.len();
+            if v.len() != n { return Err(format!("after op {:?}: len() = {}, a Vec<String> holds {}", o[0], v.len(), n)); }
+            for j in [0usize, n / 2, n.wrapping_sub(1)] { if j < n && v.get(j) != Some(want[j].as_str()) { return Err(format!("after op {:?}: get({}) = {:?}, pushed {:?}", o[0], j, v.get(j), want[j])); } }
+            if v.get(n).is_some() || v.get_bytes(n + 1).is_some() { return Err("get past the end was not refused".into()); }
+            expect.push(zlist(&e));
+        }
+        Ok((coq_ops, expect))
+    });
+    match r {
+        Err(p) => cx.sum.fail(cell, None, cj, &format!("panicked: {}", p)),
+        Ok(Err(d)) => cx.sum.fail(cell, None, cj, &d),
+        Ok(Ok((coq_ops, expect))) => if coq == Coq::Always || (coq == Coq::Budget && cx.room("FixedLenStrVec")) {
+            cx.shards.push(format!("CFix {} [{}] [{}]", N, coq_ops.join("; "), expect.join("; ")), cj); }
+    }
+}
+fn fixedlen_history(cx: &mut Ctx, n: u64, ops: &[Value], coq: Coq) {
+    match n { 4 => fixedlen_history_n::<4>(cx, ops, coq), 8 => fixedlen_history_n::<8>(cx, ops, coq), 16 => fixedlen_history_n::<16>(cx, ops, coq), _ => fixedlen_history_n::<300>(cx, ops, coq) }
+}
+
+/// FixedLenStrVec at the 24-bit arena limit (oracle only: 65 793 pushes of 255 bytes fill the arena to 2^24 - 1 bytes)
+fn fixedlen_limit(cx: &mut Ctx) {
+    let cell = "FixedLenStrVec<300>";
+    cx.sum.eval(cell, "fixedlen_limit", true);
+    let cj = json!({"cell": "fixedlen_limit"});
+    let r = guarded(|| -> Option<String> {
+        let mut v: FixedLenStrVec<300> = FixedLenStrVec::new();
+        let block: String = (0..255u32).map(|i| (b'a' + (i % 26) as u8) as char).collect();
+        for k in 0..65793u32 { if v.push(&block).is_err() { return Some(format!("push #{} of 255 bytes refused at {} bytes (limit 2^24 - 1)", k, k as usize * 255)); } }
+        if v.push("").is_err() { return Some("an empty string was refused with 2^24 - 1 bytes stored".into()); }
+        // where exactly the container stops accepting is its own business; whatever it accepts must read back
+        let mut want: Vec<String> = vec![];
+        for s in ["a", "", "bc", "", "d"] { if v.push(s).is_ok() { want.push(s.to_string()); } }
+        if v.len() != 65794 + want.len() { return Some(format!("len() = {} after {} accepted pushes", v.len(), 65794 + want.len())); }
+        if v.get(65792) != Some(block.as_str()) || v.get(65793) != Some("") || v.get(0) != Some(block.as_str()) || v.get(v.len()).is_some() { return Some("read-back at the arena limit differs from a Vec<String>".into()); }
+        for (k, w) in want.iter().enumerate() { if v.get(65794 + k) != Some(w.as_str()) { return Some(format!("string #{} pushed at the arena limit ({:?}) reads back {:?}", 65794 + k, w, v.get(65794 + k))); } }
+        if v.find_exact("") != Some(65793) || v.count_prefix("abc") != 65793 { return Some("find_exact / count_prefix at the arena limit".into()); }
+        None
+    });
+    match r { Err(p) => cx.sum.fail(cell, None, cj, &format!("panicked: {}", p)), Ok(Some(d)) => cx.sum.fail(cell, None, cj, &d), Ok(None) => {} }
+}
+
+fn gen_str_ops(r: &mut Rng, fixed_n: Option<usize>) -> Vec<Value> {
+    let kind = match fixed_n { Some(4) => 1, Some(8) => 2, Some(16) => 3, _ => 0 };
+    let mut pool = gen_strings(r, kind);
+    if pool.is_empty() { pool.push("a".into()); }
+    if let Some(n) = fixed_n { if n > 255 { let l = *r.pick(&[254usize, 255, 256, 300, 301]); pool.push("q".repeat(l)); pool.push("é".repeat(127)); pool.push(format!("{}x", "é".repeat(127))); } }
+    let cnt = r.range(4, 40);
+    let mut ops: Vec<Value> = vec![];
+    let mut len: u64 = 0;
+    // every fifth SortableStrVec history starts with 32..48 pushes, so that radix_sort leaves its small-input branch
+    if fixed_n.is_none() && r.chance(1, 5) { for _ in 0..r.range(32, 48) { let s = r.pick(&pool).clone(); len += 1; ops.push(json!([0, s])); } }
+    for _ in 0..cnt {
+        let c = r.below(100);
+        let s = r.pick(&pool).clone();
+        let idx = |r: &mut Rng, len: u64| { let rb = r.below(len + 1); *r.pick(&[0, len, len.saturating_sub(1), len + 1, rb]) };
+        let sub = |r: &mut Rng, s: &str| { let mut h = (r.below(s.len() as u64 + 1)) as usize; while !s.is_char_boundary(h) { h -= 1; } s[..h].to_string() };
+        ops.push(if fixed_n.is_some() {
+            if c < 50 { len += 1; json!([0, s]) } else if c < 65 { json!([1, idx(r, len)]) } else if c < 72 { json!([2, idx(r, len)]) } else if c < 78 { json!([3]) }
+            else if c < 90 { let q = if r.chance(1, 3) { sub(r, &s) } else { s }; json!([4, q]) } else { json!([5, sub(r, &s)]) }
+        } else {
+            if c < 38 { len += 1; json!([if c % 2 == 0 { 0 } else { 13 }, s]) } else if c < 50 { json!([1, idx(r, len)]) } else if c < 53 { json!([2]) } else if c < 58 { json!([3]) }
+            else if c < 61 { len = 0; json!([4]) } else if c < 68 { json!([5]) } else if c < 73 { json!([6]) } else if c < 78 { json!([7]) } else if c < 86 { json!([8, idx(r, len)]) }
+            else if c < 92 { json!([9]) } else if c < 94 { json!([10]) } else if c < 98 { json!([11]) } else { json!([12]) }
+        });
+    }
+    ops
+}
+
+// ---------------------------------------------------------------------------------------------
 // generators
 // ---------------------------------------------------------------------------------------------
 const CAPS: [u64; 9] = [0, 1, 2, 3, 4, 7, 8, 9, 16];
@@ -791,7 +1143,8 @@ fn gen_vec_ops(r: &mut Rng, allowed: &[u64], big: bool) -> Vec<Vec<u64>> {
             13 => { let a = idx(r, len); let b = idx(r, len); vec![13, a.min(b), a.max(b)] }
             14 => { let am = amount(r); let k = *r.pick(&[0, 1, len, len / 2, len + 1, am]); if k <= len { len -= k; } vec![14, k] }
             15 => { let k = amount(r); len = k; vec![15, k] }
-            17 => { let am = amount(r); let m = *r.pick(&[0, len, len.saturating_sub(1), len / 2, len + 1, len + am]); len = m; vec![17, m] }
+            17 => { let am = amount(r); vec![17, *r.pick(&[0, 1, len, len.saturating_sub(1), len + 1, len + am])] }
+            18 => { let am = amount(r); let m = *r.pick(&[0, len, len.saturating_sub(1), len / 2, len + 1, len + am]); len = m; vec![18, m] }
             _ => { let k = *r.pick(&[0u64, 1, 15, 16, 17, 33, 64]); len += k; vec![16, k] }
         };
         ops.push(o);
@@ -823,15 +1176,21 @@ fn gen_strings(r: &mut Rng, kind: u64) -> Vec<String> {
     out
 }
 
-fn run_one(cx: &mut Ctx, c: &Value) {
+fn run_one(cx: &mut Ctx, c: &Value, args: &Args) {
     let cap = c["cap"].as_u64().unwrap_or(0);
     match c["cell"].as_str().unwrap_or("") {
-        "ring" => ring_history(cx, cap, &parse_ops(&c["ops"]), true),
-        "fixed" => fixed_history(cx, cap, &parse_ops(&c["ops"]), true),
-        "fastvec" => fastvec_history(cx, cap, &parse_ops(&c["ops"]), true),
+        "ring" => ring_history(cx, cap, &parse_ops(&c["ops"]), Coq::Always),
+        "fixed" => fixed_history(cx, cap, &parse_ops(&c["ops"]), Coq::Always),
+        "fastvec" => fastvec_history(cx, cap, &parse_ops(&c["ops"]), Coq::Always),
+        "valvec32_limits" => valvec32_limits(cx),
+        "fastvec_probe_child" => fastvec_probe_child(c["mode"].as_u64().unwrap_or(0)),
+        "fastvec_probe" => fastvec_probe(cx, args, c["mode"].as_u64().unwrap_or(0)),
+        "strvec" => strvec_history(cx, c["ops"].as_array().map(|a| a.as_slice()).unwrap_or(&[]), Coq::Always),
+        "fixedlen" => fixedlen_history(cx, cap, c["ops"].as_array().map(|a| a.as_slice()).unwrap_or(&[]), Coq::Always),
+        "fixedlen_limit" => fixedlen_limit(cx),
         "str" => { let strs: Vec<String> = c["strs"].as_array().map(|a| a.iter().map(|s| s.as_str().unwrap_or("").to_string()).collect()).unwrap_or_default();
                    str_case(cx, c["kind"].as_u64().unwrap_or(0), &strs, c["mode"].as_u64().unwrap_or(0)) }
-        t => vec_cell(cx, t, cap, &parse_ops(&c["ops"])),
+        t => vec_cell(cx, t, cap, &parse_ops(&c["ops"]), Coq::Always),
     }
 }
 
@@ -840,25 +1199,33 @@ pub fn run(args: &Args) {
     let mut cx = Ctx {
         sum: Summary::new("C10", "operation histories (4..60 ops) on every container the property names, element type = drop-counting handle (per-id live-instance count compared with the shadow container after every operation and after Drop) or u8/u64 for the Copy/SIMD paths; initial capacities 0,1,2,3,4,7,8,9,16; ring histories start by rotating head to a chosen offset, bulk sizes are chosen to exactly fill / overshoot by one / straddle the wrap point, growth while wrapped is counted; vector indices at 0, len-1, len, len+1; string sets with duplicates, shared prefixes/suffixes, empty strings, NUL bytes, multi-byte UTF-8, lengths at the fixed limit; after every operation len/front/back/as_slice/get (incl. two indices past the end) are compared with VecDeque/Vec; non-trivial = history of >= 3 operations or >= 2 strings"),
         shards: CoqShards::new(HEADER, 150),
-        budget: if args.thorough { 9000 } else { 1200 },
+        budgets: Default::default(),
     };
+    // shares of the Coq budget (quick: 1500 cases in total), per M+S cell
+    let k = if args.thorough { 6 } else { 1 };
+    for (c, n) in [("AutoGrowCircularQueue", 750), ("FixedCircularQueue", 100), ("FastVec<El>", 150), ("ValVec32<El>", 120), ("ValVec32<u64>", 80),
+                   ("FastVec<u64>", 80), ("FastVec<u8>", 80), ("SortableStrVec", 80), ("FixedLenStrVec", 60)] {
+        cx.budgets.insert(c, (0, n * k));
+    }
     for c in ["AutoGrowCircularQueue", "FixedCircularQueue", "FastVec<El>"] { cx.sum.cell_status(c, "M+S"); }
     let mut rng = Rng::new(args.seed);
     if let Some(f) = &args.replay {
         let v: Value = serde_json::from_str(&std::fs::read_to_string(f).expect("replay file")).expect("json");
         let c = if v.get("case").is_some() { v["case"].clone() } else { v };
-        run_one(&mut cx, &c);
+        run_one(&mut cx, &c, args);
         let sh = cx.shards.write(&args.out);
         cx.sum.write(&args.out, sh);
         return;
     }
+    // first: the operations that may abort the process, each in a child process
+    for mode in 0..3 { fastvec_probe(&mut cx, args, mode); }
     if let Ok(rd) = std::fs::read_dir("corpus/C10") {
         let mut files: Vec<_> = rd.filter_map(|e| e.ok()).map(|e| e.path()).collect();
         files.sort();
         for p in files {
             if let Ok(v) = serde_json::from_str::<Value>(&std::fs::read_to_string(&p).unwrap_or_default()) {
                 let c = if v.get("case").is_some() { v["case"].clone() } else { v };
-                run_one(&mut cx, &c);
+                run_one(&mut cx, &c, args);
                 cx.sum.dist("corpus_cases");
             }
         }
@@ -872,10 +1239,8 @@ pub fn run(args: &Args) {
             for code in 0..total {
                 let mut x = code; let mut ops = vec![];
                 for _ in 0..l { ops.push(alphabet[x % 5].clone()); x /= 5; }
-                // keep the Coq budget for the generated family: only every 7th enumerated history is replayed in Coq
-                let save = cx.budget; if code % 7 != 0 { cx.budget = 0; }
-                ring_history(&mut cx, cap0, &ops, false);
-                cx.budget = save;
+                // keep the Coq budget for the generated family: only every 12th enumerated history is replayed in Coq
+                ring_history(&mut cx, cap0, &ops, if code % 12 == 0 { Coq::Budget } else { Coq::Never });
             }
         }
     }
@@ -886,35 +1251,43 @@ pub fn run(args: &Args) {
         let cap0 = CAPS[(i % 9) as usize];
         let ops = gen_ring_ops(&mut rng, cap0);
         if i < 2 { cx.sum.sample(json!({"ring_cap": cap0, "ops": ops.iter().take(10).collect::<Vec<_>>()})); }
-        ring_history(&mut cx, cap0, &ops, false);
+        ring_history(&mut cx, cap0, &ops, Coq::Budget);
         let n = [1u64, 2, 3, 4, 7, 8, 9, 16][(i % 8) as usize];
         let ops = gen_fixed_ops(&mut rng, n);
-        fixed_history(&mut cx, n, &ops, false);
+        fixed_history(&mut cx, n, &ops, Coq::Budget);
         let ops = gen_vec_ops(&mut rng, &vec_all, false);
         if i < 1 { cx.sum.sample(json!({"fastvec_cap": cap0, "ops": ops.iter().take(10).collect::<Vec<_>>()})); }
-        fastvec_history(&mut cx, cap0, &ops, false);
+        fastvec_history(&mut cx, cap0, &ops, Coq::Budget);
         if i % 2 == 0 {
-            let ops = gen_vec_ops(&mut rng, &[0, 1, 2, 3, 4, 5, 6, 7, 7, 8, 9, 10, 13, 2, 3], true);
-            vec_cell(&mut cx, "fastvec_u64", cap0, &ops);
-            let ops = gen_vec_ops(&mut rng, &[0, 1, 2, 3, 4, 4, 5, 6, 7, 7, 8, 9, 10, 13, 2, 3], true);
-            vec_cell(&mut cx, "fastvec_u8", cap0, &ops);
-            let ops = gen_vec_ops(&mut rng, &[0, 0, 1, 2, 3, 4, 5, 6, 7, 8, 9, 10, 17, 17, 17], false);
-            vec_cell(&mut cx, "fastvec_el", cap0, &ops);
+            let ops = gen_vec_ops(&mut rng, &[0, 1, 2, 3, 4, 5, 6, 7, 7, 8, 9, 10, 13, 2, 3, 15, 17], true);
+            vec_cell(&mut cx, "fastvec_u64", cap0, &ops, Coq::Budget);
+            let ops = gen_vec_ops(&mut rng, &[0, 1, 2, 3, 4, 4, 5, 6, 7, 7, 8, 9, 10, 13, 2, 3, 15, 17], true);
+            vec_cell(&mut cx, "fastvec_u8", cap0, &ops, Coq::Budget);
+            let ops = gen_vec_ops(&mut rng, &[0, 0, 1, 2, 3, 4, 5, 6, 7, 8, 9, 10, 18, 18, 18], false);
+            vec_cell(&mut cx, "fastvec_el", cap0, &ops, Coq::Budget);
             let ops = gen_vec_ops(&mut rng, &[0, 0, 1, 5, 7, 8, 9, 10, 11], false);
-            vec_cell(&mut cx, "valvec32_el", cap0, &ops);
+            vec_cell(&mut cx, "valvec32_el", cap0, &ops, Coq::Budget);
             let ops = gen_vec_ops(&mut rng, &[0, 0, 1, 5, 7, 8, 9, 10, 11, 16], true);
-            vec_cell(&mut cx, "valvec32_u64", cap0, &ops);
+            vec_cell(&mut cx, "valvec32_u64", cap0, &ops, Coq::Budget);
             let ops = gen_vec_ops(&mut rng, &[0, 0, 0, 1, 5, 8, 9, 12], false);
-            vec_cell(&mut cx, "cachevec_el", cap0, &ops);
-            vec_cell(&mut cx, "cachevec_u8", cap0, &ops);
+            vec_cell(&mut cx, "cachevec_el", cap0, &ops, Coq::Budget);
+            vec_cell(&mut cx, "cachevec_u8", cap0, &ops, Coq::Budget);
             let ops = gen_vec_ops(&mut rng, &[0, 0, 0, 1, 9], false);
-            vec_cell(&mut cx, "bumpvec_el", cap0.max(1), &ops);
+            vec_cell(&mut cx, "bumpvec_el", cap0.max(1), &ops, Coq::Budget);
             let ops = gen_vec_ops(&mut rng, &[0, 0, 9], false);
-            vec_cell(&mut cx, "layoutvec_u64", cap0, &ops);
+            vec_cell(&mut cx, "layoutvec_u64", cap0, &ops, Coq::Budget);
         }
         if i % 8 == 0 {
             let ops = gen_vec_ops(&mut rng, &[0, 0, 1, 4, 5, 6, 7, 8, 9, 12, 13, 14, 15], i % 16 == 0);
-            vec_cell(&mut cx, "mmapvec_u64", cap0, &ops);
+            vec_cell(&mut cx, "mmapvec_u64", cap0, &ops, Coq::Budget);
+        }
+        if i % 3 == 0 {
+            let ops = gen_str_ops(&mut rng, None);
+            if i == 0 { cx.sum.sample(json!({"strvec_ops": ops.iter().take(8).collect::<Vec<_>>()})); }
+            strvec_history(&mut cx, &ops, Coq::Budget);
+            let n = [4u64, 8, 16, 300][((i / 3) % 4) as usize];
+            let ops = gen_str_ops(&mut rng, Some(n as usize));
+            fixedlen_history(&mut cx, n, &ops, Coq::Budget);
         }
         let kind = i % 13;
         let strs = gen_strings(&mut rng, kind);
@@ -926,6 +1299,11 @@ pub fn run(args: &Args) {
         let strs = vec!["head".to_string(), "x".repeat(l), "tail".to_string()];
         str_case(&mut cx, kind, &strs, 0);
     }
+    valvec32_limits(&mut cx);
+    fixedlen_limit(&mut cx);
+    // SortableStrVec at the 20-bit length limit, also replayed in Coq (the long strings are `repeat` terms there)
+    strvec_history(&mut cx, &[json!([0, "head"]), json!([0, [120, (1u64 << 20) - 1]]), json!([0, [121, 1u64 << 20]]), json!([13, [122, (1u64 << 20) + 5]]), json!([0, "tail"]),
+                              json!([1, 2]), json!([1, 1]), json!([1, 0]), json!([2]), json!([5]), json!([8, 0]), json!([8, 2]), json!([6]), json!([10]), json!([1, 2])], Coq::Always);
     cx.sum.dist_max("coq_cases", cx.shards.len() as u64);
     let sh = cx.shards.write(&args.out);
     cx.sum.write(&args.out, sh);
